@@ -236,34 +236,33 @@ def rule_rules(chk, w):
     hdp = w.by_p.get(Z + "parse::has_duplicate_param", [])
     kinds = [v["name"] for v in (w.adts.get(Z + "parse::Param") or {"variants": []})["variants"]]
     if len(hdp) == 1 and kinds:
-        b = hdp[0].body
-        du = defuse.DefUse(b)
-        # pairs (variant of p0, variant of p) that lead to `return true`
-        pairs = set()
-        for sb, blk in enumerate(b.blocks):
-            t = blk.term
-            if t.kind != "switch" or blk.cleanup:
-                continue
-            o = defuse.show(du.origin(t.discr))
-            if not o.startswith("disc") and "discriminant" not in o:
-                pass
-        trues = [bi for bi, blk in enumerate(b.blocks) if not blk.cleanup for s in blk.stmts
-                 if s.kind == "=" and s.place.local == 0 and s.rv.kind == "use" and
-                 s.rv.ops[0].kind == "const" and s.rv.ops[0].info.get("v") == 1]
-        # count the distinct switch arms (on a Param discriminant) that control a `true` return
+        # the decision may sit in the function itself (a loop with `return true`) or in a closure it
+        # hands to an iterator adaptor (`iter().any(|p0| match ..)`)
         doms = set()
-        for tb in trues:
-            sw = vc.controlling_switch(b, tb)
-            hops = 0
-            while sw is not None and hops < 6:
-                d = b.blocks[sw].term
-                for v, tgt in d.arms:
-                    if tgt == tb or b.dominates(tgt, tb):
-                        for st in b.blocks[sw].stmts:
-                            if st.kind == "=" and st.rv.kind == "disc" and st.place.local == d.discr.place.local:
-                                doms.add((defuse.show(du.origin_place(st.rv.place))[:12], v))
-                sw = vc.controlling_switch(b, sw)
-                hops += 1
+        bodies = [hdp[0].body] + [g.body for g in w.fns.values() if g.is_closure() and g.root == hdp[0].id]
+        for b in bodies:
+            du = defuse.DefUse(b)
+            # blocks in which the result becomes true or a computed boolean (e.g. `n == n0`)
+            trues = [bi for bi, blk in enumerate(b.blocks) if not blk.cleanup for s in blk.stmts
+                     if s.kind == "=" and s.place.local == 0 and not s.place.proj and s.rv.kind == "use" and
+                     (s.rv.ops[0].kind != "const" or s.rv.ops[0].info.get("v") == 1)]
+            trues += [bi for bi, blk in enumerate(b.blocks) if not blk.cleanup and blk.term.kind == "call" and
+                      blk.term.dest is not None and blk.term.dest.local == 0 and not blk.term.dest.proj and
+                      b.local_ty(0) == "bool"]
+            if b.local_ty(0) != "bool":
+                continue
+            for tb in trues:
+                sw = vc.controlling_switch(b, tb)
+                hops = 0
+                while sw is not None and hops < 6:
+                    d = b.blocks[sw].term
+                    for v, tgt in d.arms:
+                        if tgt == tb or b.dominates(tgt, tb):
+                            for st in b.blocks[sw].stmts:
+                                if st.kind == "=" and st.rv.kind == "disc" and st.place.local == d.discr.place.local:
+                                    doms.add((defuse.show(du.origin_place(st.rv.place))[:12], v))
+                    sw = vc.controlling_switch(b, sw)
+                    hops += 1
         got = {v for _w, v in doms if isinstance(v, int)}
         if got >= set(range(len(kinds))):
             chk.ok("RULES", "has_duplicate_param returns true for a repeated parameter of every kind (%s)"
@@ -405,10 +404,19 @@ def rule_grammar(chk, w):
     # the whole amount string must be consumed, and the value goes through the checked constructors
     conv = [g for g in w.fns.values() if g.is_closure() and g.root == pam[0].id and
             g.body.local_ty(0).startswith("core::result::Result<zcash_protocol::value::Zatoshis")]
+    # ... or a named function handed to map_res instead of a closure
+    named = {o.info.get("p") for blk in pam[0].body.blocks for st in blk.stmts if st.kind == "="
+             for o in (st.rv.ops or []) if o.kind == "const" and "fn" in o.info}
+    named |= {o.info.get("p") for _bb, t in pam[0].body.calls() for o in t.args if o.kind == "const" and "fn" in o.info}
+    helpers = [g for g in w.fns.values() if not g.is_closure() and g.p in named and g.body is not None and
+               g.crate.name == "zip321" and
+               g.body.local_ty(0).startswith("core::result::Result<zcash_protocol::value::Zatoshis")]
+    conv += helpers
     coin = w.consts.get("zcash_protocol::value::COIN", {}).get("v")
     good = False
     if len(conv) == 1:
-        allcl = [g for g in w.fns.values() if g.is_closure() and g.root == pam[0].id]
+        roots = {pam[0].id} | {g.id for g in helpers}
+        allcl = [g for g in w.fns.values() if (g.is_closure() and g.root in roots) or g in helpers]
         names = [t.callee.target_p() for g in allcl for _bb, t in g.body.calls()
                  if t.callee.indirect is None]
         fnrefs = [o.info.get("p") or "" for g in allcl for blk in g.body.blocks for st in blk.stmts
